@@ -134,7 +134,8 @@ PROPS["C07"] = {
     "engine": "E1 simnet",
     "technique": "conservation monitor over uniquely tagged payloads: the switch observes socket and destination of every written payload, the harness decides eligibility of every inbound datagram from its own knowledge, and the multiset read from Conn must equal the eligible deliveries; byte/packet counters compared with the harness tally",
     "level_text": "Writes before selection, after it, across re-selection and coordinated Restart; payload sizes 12..8100 with a share that parses as STUN; inbound data from known remotes, unknown sources, "
-                  "right-IP-wrong-port sources, duplicates on the wire; all interleaved with the C01 scheduler (ticks, drops, reorder, trickle).",
+                  "right-IP-wrong-port sources, duplicates on the wire; all interleaved with the C01 scheduler (ticks, drops, reorder, trickle). "
+                  "Conn.WriteToPair on random listed pairs and on ids never handed out: refused for STUN-like payloads, unknown ids and pairs that are not validated; otherwise exactly one datagram over that pair's addresses.",
     "level_note": "UDP only: 'known address on the other transport' cannot be produced in the simulation and is not covered. Readers are drained after every step via the packet buffer count, so Read never blocks.",
     "rule": "case = one session history with data steps; distinct_nontrivial counts (|A|,|B|,#NAT,#cuts,restart,payloads-read bucket) classes; counters give writes, eligible and ineligible inbound payloads",
     "assumptions": ["a payload 'parses as STUN' iff stun.IsMessage accepts it"],
